@@ -5,7 +5,7 @@
 From Coq Require Import ZArith List Bool String Ascii.
 From Cspuz Require Import Lib.PyErr Core.Expr Core.Program Backend.SugarText Backend.SugarTextProofs
   Gen.SugarOps Backend.Sugar Backend.SugarReply Backend.SugarLexProofs Backend.SugarSpec
-  Backend.SugarPrintProofs Backend.SugarDescProofs Backend.SugarReplyProofs Backend.SugarMain.
+  Backend.SugarPrintProofs Backend.SugarDescProofs Backend.SugarReplyProofs Backend.SugarMain Backend.SugarThrough.
 Import ListNotations.
 Open Scope string_scope.
 
@@ -108,8 +108,46 @@ Proof. exact SugarMain.sugar_falls_back. Qed.
 Print Assumptions sugar_falls_back.
 
 (* why wts asks Op.SUB for two operands: a one-operand SUB prints as Sugar's negation *)
-Theorem sub1_misprinted : forall gsem en,
+Theorem sub1_misprinted : forall gsem, opname SUB = Some "-" -> forall en,
   exists s x, print_expr (INode SUB [PyInt 1]) = Ok s /\ sx_parse s = Some x /\
     sugar_sem gsem (name_env en) x = Some (VI (-1)) /\ eval gsem en (INode SUB [PyInt 1]) = Some (VI 1).
 Proof. exact SugarPrintProofs.sub1_misprinted. Qed.
 Print Assumptions sub1_misprinted.
+
+(* C01 through the text backends: with a correct external solver (hypothesis on
+   what _call_solver returns for the emitted description, answer-finder protocol),
+   solve() returns True iff the program is satisfiable and then leaves a genuine
+   model in the sol fields of all variables *)
+Theorem find_answer_through_text : forall gsem solver st,
+  wf_state st ->
+  (forall text, description (bvars_of_state st) (cons st) None = Ok text -> answer_oracle_at gsem solver text) ->
+  let vs := bvars_of_state st in
+  exists text b sol,
+    description vs (cons st) None = Ok text /\
+    parse_answer vs (solver text) = Ok (b, sol) /\
+    (b = true <-> satisfiable gsem st) /\
+    (b = true -> exists en, model_of gsem en st /\ sol = map (fun v => name_env en (var_name v)) vs) /\
+    (b = false -> sol = no_sol vs).
+Proof. exact SugarThrough.find_answer_through_text. Qed.
+Print Assumptions find_answer_through_text.
+
+(* C02 through the native deduction mode: a registered key gets a value exactly
+   when all models agree on it, every other variable gets None *)
+Theorem solve_through_text : forall gsem solver st,
+  wf_state st ->
+  (forall text, description (bvars_of_state st) (cons st) (Some (keys st)) = Ok text ->
+                deduction_oracle_at gsem solver text) ->
+  let vs := bvars_of_state st in
+  exists text b sol,
+    description vs (cons st) (Some (keys st)) = Ok text /\
+    parse_deduction vs (solver text) = Ok (b, sol) /\
+    (b = true <-> satisfiable gsem st) /\
+    (b = false -> sol = no_sol vs) /\
+    (b = true ->
+       exists facts, sol = map facts (combine vs (keys st)) /\
+         forall v k, In (v, k) (combine vs (keys st)) ->
+           (k = false -> facts (v, k) = None) /\
+           (k = true -> forall x, facts (v, k) = Some x <->
+                                  forall en, model_of gsem en st -> name_env en (var_name v) = Some x)).
+Proof. exact SugarThrough.solve_through_text. Qed.
+Print Assumptions solve_through_text.
